@@ -1,4 +1,7 @@
 ---------------------------- MODULE Ind_Mix ----------------------------
+(* Apalache inductive lemma (unbounded integers): the arithmetic core of normal-mode encoding against an adversarial graph    *)
+(* (any out-degree 1..4 at every step): m = acc + q * prod with 0 <= acc < prod, hence the emitted digits are the little-endian  *)
+(* mixed-radix representation of the message for every message value and every graph (properties C01, C04, C05).                *)
 EXTENDS Integers
 \* Arithmetic core of normal-mode encoding against an adversarial graph: at every step the graph
 \* offers an out-degree d in 1..4; branching steps (d >= 2) consume the digit q % d.
